@@ -5,6 +5,7 @@
 //! and nothing here is compiled unless the `verif` feature is enabled.
 
 pub mod codecs;
+pub mod net;
 pub mod pipes;
 pub mod session;
 pub mod shutdown;
